@@ -10,17 +10,23 @@ RULE = ("a shape = per-segment (present, values per chunk, chunks, values in fin
         "layout; requests = all (offset,length) with 0<=offset<=len+2, length None or 0..len+2, all slices with "
         "bounds in [-len-2,len+2] or None and steps in {None,+-1,+-2,+-3,0} for len<=MaxSliceLen, all integer "
         "indices in [-len-2,len+2]; each TLC state is one (shape, request); non-trivial = channel has data; "
-        "distinct = distinct shapes replayed")
+        "distinct = distinct shapes replayed; plus long shapes <<segments, cut, n1, n2>> (c_LongQ / c_Long in MC_C04.tla) "
+        "with a sparse request set around the head and the last 45 values")
 
 CONFIGS = {
     "quick": [("MC_C04", "MC_C04.cfg", {"MaxSegs": 2, "NVals": "c_NValsQ", "KVals": "c_KValsQ", "MaxSliceLen": 3},
                ["lazy", "eager"], None),
               # three segments (a channel absent from an intermediate segment needs them) over a smaller alphabet
               ("MC_C04", "MC_C04.cfg", {"MaxSegs": 3, "NVals": "c_NValsQ", "KVals": "c_KValsQ", "MaxSliceLen": 0,
-                                        "Extra": 1}, ["lazy", "eager"], None)],
+                                        "Extra": 1}, ["lazy", "eager"], None),
+              # one long file (101 segments, two channels whose tables differ in the last segment only)
+              ("MC_C04", "MC_C04.cfg", {"MaxSegs": 0, "Trunc": "FALSE", "MaxSliceLen": 0, "LongSpecs": "c_LongQ"},
+               ["lazy", "eager"], None)],
     "thorough": [("MC_C04", "MC_C04.cfg", {"MaxSegs": 3, "MaxSliceLen": 4}, ["lazy", "eager"], None),
                  ("MC_C04", "MC_C04.cfg", {"MaxSegs": 4, "NVals": "c_NValsQ", "KVals": "c_KValsQ", "MaxSliceLen": 0,
-                                           "Extra": 1}, ["lazy", "eager"], None)],
+                                           "Extra": 1}, ["lazy", "eager"], None),
+                 ("MC_C04", "MC_C04.cfg", {"MaxSegs": 0, "Trunc": "FALSE", "MaxSliceLen": 0, "LongSpecs": "c_Long"},
+                  ["lazy", "eager"], None)],
 }
 
 
